@@ -143,10 +143,26 @@ SEQKERN_BOUND = ('seq/kern: N<=3 (quick) / 4 (thorough) real handles in 1..2 rea
                  'one of {query, retire_predecessors, retire, sequence destruction, handle destruction} at every position')
 
 
+def seqstep_queries(nn):
+    qs = []
+    quick = [((1, 1, 1), 0, 0), ((1, 1, 1), 0, 1), ((1, 1, 1), 0, 2), ((1, 1, 1), 1, 1), ((1, 1, 1), 1, 0), ((1, 1, 1), 2, 2),
+             ((1, 3, 2), 0, 1), ((1, 3, 2), 0, 2), ((3, 3, 3), 0, 2), ((1, 0, 1), 0, 2), ((1, 0, 1), 0, 1), ((3, 1, 2), 0, 2)]
+    thorough = []
+    for mb in ((1, 1, 1), (1, 3, 2), (3, 3, 3), (1, 0, 1), (3, 1, 2), (2, 3, 1), (1, 2, 3), (3, 3, 1)):
+        for gone in (0, 1, 2, 3, 4, 5):
+            for call in (0, 1, 2):
+                if (mb, gone, call) not in quick: thorough.append((mb, gone, call))
+    for tier, shapes in (('quick', quick), ('thorough', thorough)):
+        for mb, gone, call in shapes:
+            qs.append(Q('seqstep_mb%d%d%d_gone%d_call%d' % (mb + (gone, call)), 'api/seqstep.cpp', 6, tier=tier,
+                        defs={'VF_MB0': mb[0], 'VF_MB1': mb[1], 'VF_MB2': mb[2], 'VF_GONE': gone, 'VF_CALL': call, 'VF_CLAIM': nn}, timeout=1500))
+    return qs
+
+
 @prop('C05')
 def c05():
     return dict(
-        queries=seqkern_queries(5),
+        queries=seqkern_queries(5) + seqstep_queries(5),
         level='model_checking',
         level_text='Bounded: cost/order/eligibility of real sequence handles equal the reference for every retirement pattern and all counters; retire_predecessors / retire / release remove exactly the right handles.',
         bound=SEQKERN_BOUND,
@@ -160,6 +176,96 @@ def c06():
         level='model_checking',
         level_text='Bounded: is_completed() iff every listed handle is satisfied; sequence destruction reports once, non-fatally, exactly the listed expectations and detaches them; empty teardown is silent.',
         bound=SEQKERN_BOUND,
+    )
+
+
+# ------------------------------------------------------------------------------------------- C04
+@prop('C04')
+def c04():
+    qs = [Q('dtor_order%d' % o, 'C04/dtor.cpp', 10, defs={'VF_ORDER': o, 'VF_CLAIM': 4}, timeout=600) for o in (0, 1, 2, 3)]
+    return dict(
+        queries=qs,
+        level='model_checking',
+        level_text='Bounded: for every 64-bit (L,H,count) under the invariant and each lifetime-ending order (release first / mock first / already listed in a no-match report / saturated), exactly one non-fatal report iff count<L and not yet reported, with the expectation\'s location, text and the required / actual counts; never a second one.',
+        bound='one expectation f(7) on one mock; orders {release->mock, mock->release, no-match-listing->release->mock, saturated: mock->release}; all counters',
+        outside='movable mocks (C14 list-move kernel covers the splice); several expectations dying together',
+    )
+
+
+# ------------------------------------------------------------------------------------------- C13 / C14 death histories
+def death_shapes(maxlen):
+    """legal histories over ops 1..9 (see C13/death.cpp), deduplicated; returns list of (ops tuple, multi flag)"""
+    out = []
+    def legal(seq):
+        alive = True; ex = [False, False]; multi = False
+        for o in seq:
+            if o in (1, 2):
+                k = o - 1
+                if not alive or ex[k]: return None
+                if ex[1 - k]: multi = True
+                ex[k] = True
+            elif o in (3, 4):
+                if not ex[o - 3]: return None
+                ex[o - 3] = False
+            elif o == 5:
+                if not alive: return None
+                alive = False
+            else:
+                if not alive: return None
+        return multi
+    for n in range(1, maxlen + 1):
+        for seq in itertools.product(range(1, 10), repeat=n):
+            m = legal(seq)
+            if m is None: continue
+            # symmetry: requirement #1 is only used after #0 has been used
+            if 2 in seq and (1 not in seq or seq.index(2) < seq.index(1)): continue
+            out.append((seq, m))
+    return out
+
+
+def death_queries(nn):
+    qs = []
+    for tier, ml in (('quick', 3), ('thorough', 4)):
+        for i, (seq, multi) in enumerate(death_shapes(ml)):
+            if tier == 'thorough' and len(seq) <= 3: continue
+            defs = {'VF_O%d' % (j + 1): o for j, o in enumerate(seq)}
+            for j in range(len(seq), 5): defs['VF_O%d' % (j + 1)] = 0
+            defs['VF_CLAIM'] = nn
+            qs.append(Q('death_%s%s' % ('multi_' if multi else '', ''.join(map(str, seq))), 'C13/death.cpp', 4, tier=tier, defs=defs,
+                        tv=(i % 9 == 0), sanitize=True, timeout=300))
+    return qs
+
+
+DEATH_BOUND = 'all legal histories of length <=3 (quick) / <=4 (thorough) over {create / release requirement #0,#1, destroy, copy-, move-construct from, assign to, assign from} on one deathwatched object, then wind-down'
+
+
+@prop('C13')
+def c13():
+    return dict(
+        queries=death_queries(13) + [Q('null_on_move', 'C13/nom.cpp', 3)],
+        level='model_checking',
+        level_text='Bounded: every short history of requirement creation/release, destruction, copy/move/assignment on a deathwatched object yields exactly the reports and is_satisfied/is_saturated values of the 4-state reference; null_on_move special members for arbitrary pointer values. Histories are configurations (enumerated); memory safety of each is decided by the solver.',
+        bound=DEATH_BOUND,
+        outside='sequenced monitors (C05), several watched objects interacting',
+    )
+
+
+@prop('C14')
+def c14():
+    qs = []
+    for n in range(0, 5):
+        for op in range(0, 6):
+            poss = range(max(n, 1)) if op in (1, 2, 3) else (0,)
+            for pos in poss:
+                if op in (1, 2, 3) and n == 0: continue
+                qs.append(Q('list_N%d_op%d_pos%d' % (n, op, pos), 'C14/list.cpp', n + 4, tier='quick' if n <= 3 else 'thorough',
+                            defs={'VF_N': n, 'VF_OP': op, 'VF_POS': pos}, tv=(n == 3 and pos == 0)))
+    return dict(
+        queries=qs + death_queries(14) + [Q('dtor_order%d' % o, 'C04/dtor.cpp', 10, defs={'VF_ORDER': o, 'VF_CLAIM': 14}, timeout=600) for o in (1, 3)],
+        level='model_checking',
+        level_text='Bounded: intrusive list primitives keep the ring invariant at every position of rings up to 4; every short destruction/copy/move/assignment history of a deathwatched object and its requirements, and mock-before-expectation destruction, run without touching freed or dead memory (CBMC pointer checks on every dereference of the IR-derived code).',
+        bound='list rings n<=3 (4), every position, ops {push, unlink, move-ctor, move-assign, list move, dtor}; ' + DEATH_BOUND,
+        outside='tracers, full permutations of mixed populations (P-order of DESIGN.md) are not built yet',
     )
 
 
